@@ -524,7 +524,20 @@ def client(ctx):
         edges = set()
         for s in r.sites:
             edges |= {tuple(e) for e in s.get('success_edges', [])}
-        stores = [c for c in body.calls() if any(glob_match('*::CertificateVerifierCache::store_validated_certificate', n) for n in c.names())]
+        STOREC = ['*::CertificateVerifierCache::store_validated_certificate']
+        stores = [c for c in body.calls() if any(glob_match(STOREC[0], n) for n in c.names())]
+        if not stores:
+            # the store moved into a helper awaited by verify_without_cache: its call sites stand for it
+            hs = []
+            for h in ctx.closure_fns(wf, depth=2):
+                if h is getattr(wf, '_orig', wf).root():
+                    continue
+                try:
+                    if ctx.closure_sites(h, STOREC, depth=2):
+                        hs.append(h.name)
+                except Exception:  # noqa
+                    pass
+            stores = ctx.call_sites(body, hs) if hs else []
         if not stores:
             R.violation('g', 'R2', 'verify_without_cache: verify_certificate Ok precedes store_validated_certificate',
                         'verify_without_cache:order:vacuous', 'no store_validated_certificate call found', wf.loc())
@@ -540,64 +553,97 @@ def client(ctx):
     # the epoch-boundary / None exits, and the first loop verifies without cache
     cf = ctx.try_fn('g', CV)
     if cf is not None:
-        lc = cf.logic()
-        body = lc.body
-        w_calls = [c for c in body.calls() if any(glob_match(WITH, n) for n in c.names())]
-        wo_calls = [c for c in body.calls() if any(glob_match(WITHOUT, n) for n in c.names())]
-        if not w_calls or not wo_calls:
+        from engine import track_result, closure_args, switch_edges
+        MODV = 'mithril_client::certificate_client::verify::'
+
+        def phase_bodies(pat):
+            out = {}
+            for g, c in ctx.closure_sites(cf, [pat], depth=3):
+                rn = getattr(g, '_orig', g).root().name
+                if rn in (WITH, WITHOUT) or not rn.startswith(('<' + MODV, MODV)):
+                    continue        # the steps themselves (the cache-enabled step falls back on the uncached one)
+                out.setdefault(getattr(g, '_orig', g).name, (g, []))[1].append(c)
+            return out
+        p1 = phase_bodies(WITHOUT)      # bodies driving the uncached phase
+        p2 = phase_bodies(WITH)         # bodies driving the cache-enabled phase
+        if not p1 or not p2:
             R.violation('g', 'R2', 'verify_chain: both phases exist', 'verify_chain:phases',
-                        'verify_with_cache_enabled sites: %d, verify_without_cache sites: %d' % (len(w_calls), len(wo_calls)), cf.loc())
+                        'bodies calling verify_with_cache_enabled: %d, verify_without_cache: %d' % (len(p2), len(p1)), cf.loc())
         else:
             R.ok('g', 'R2', 'verify_chain: both phases exist', '', cf.loc())
-            # every path to the cache phase leaves loop 1 through the true arm of the epoch-boundary test
-            # or through the None arm of the current (fully verified) link
-            from engine import track_result, closure_args, switch_edges
-            allowed = set()
-            boundary_calls = []
-            for c in body.calls():
-                if any(glob_match('std::option::Option::is_some_and', n) for n in c.names()):
-                    for n in closure_args(body, c):
-                        for cl in ctx.ws.by_name.get(n, []):
-                            if any(gg.op in ('Ne', 'Eq') and has(gg.a_orig | gg.b_orig, '*epoch*') for gg in find_guards(cl.body)):
-                                boundary_calls.append(c)
-                                tr = track_result(body, c.dest[0], +1)
-                                allowed |= tr.success_edges
-            for bi, b in enumerate(body.blocks):
-                if b.cleanup:
-                    continue
-                for (_, pl, rv) in b.stmts:
-                    if rv[0] == 'discr' and body.lty(rv[1][0]).startswith('std::option::Option<mithril_common::entities::certificate::Certificate>'):
-                        for (b2, s2, how2, pay2) in body.uses(pl[0]):
-                            if how2 == 'sw':
-                                su, fa = switch_edges(b2, pay2[0], 'option', +1)
-                                allowed |= fa
-            reach = body.reach([0], removed=allowed)
-            bad = [c for c in w_calls if c.bb in reach]
-            if bad or not boundary_calls:
+
+            def boundary(g):
+                """(edges on which the epoch boundary was crossed or the chain ended, boundary test sites) of one body"""
+                gb = g.body
+                allowed, tests = set(), []
+                for c in gb.calls():
+                    if any(glob_match('std::option::Option::is_some_and', n) or glob_match('std::option::Option::is_none_or', n) or
+                           glob_match('std::option::Option::map_or', n) for n in c.names()):
+                        for n in closure_args(gb, c):
+                            for cl in ctx.ws.by_name.get(n, []):
+                                if any(gg.op in ('Ne', 'Eq') and has(gg.a_orig | gg.b_orig, '*epoch*') for gg in find_guards(cl.body)):
+                                    tests.append((c.bb, c.line))
+                                    allowed |= track_result(gb, c.dest[0], +1).success_edges
+                for gg in find_guards(gb):
+                    if gg.op in ('Ne', 'Eq') and has(gg.a_orig | gg.b_orig, '*epoch*'):
+                        tests.append((gg.bb, gg.line))
+                        allowed |= (gg.true_edges if gg.op == 'Ne' else gg.false_edges)
+                for bi, b_ in enumerate(gb.blocks):
+                    if b_.cleanup:
+                        continue
+                    for (_, pl, rv) in b_.stmts:
+                        if rv[0] == 'discr' and gb.lty(rv[1][0]).startswith('std::option::Option<mithril_common::entities::certificate::Certificate>'):
+                            for (b2, s2, how2, pay2) in gb.uses(pl[0]):
+                                if how2 == 'sw':
+                                    su, fa = switch_edges(b2, pay2[0], 'option', +1)
+                                    allowed |= fa
+                return allowed, tests
+            bad, bad2, ntests = [], [], 0
+            for name, (g, wo_calls) in sorted(p1.items()):
+                gb = g.body
+                allowed, tests = boundary(g)
+                ntests += len(tests)
+                if name in p2:
+                    # one body drives both phases: the cache-enabled step is unreachable without crossing the boundary
+                    reach = gb.reach([0], removed=allowed)
+                    bad += ['%s line %d' % (fn_short(name), c.line) for c in p2[name][1] if c.bb in reach]
+                else:
+                    # the uncached phase is a function of its own: it returns Ok only across the boundary (or at the end of the chain),
+                    # and whoever starts the cache-enabled phase has awaited it successfully
+                    if success_reachable(gb, allowed, 'ok'):
+                        bad.append('%s returns Ok without crossing the epoch boundary' % fn_short(name))
+                    for name2, (g2, w_calls) in sorted(p2.items()):
+                        callers = ctx.call_sites(cf.logic().body, [getattr(g, '_orig', g).root().name])
+                        starts2 = ctx.call_sites(cf.logic().body, [getattr(g2, '_orig', g2).root().name]) if name2 != getattr(cf.logic(), '_orig', cf.logic()).name else w_calls
+                        ed = set()
+                        for c in callers:
+                            ed |= track_result(cf.logic().body, c.dest[0], +1).success_edges
+                        if not callers or not ed or any(c.bb in cf.logic().body.reach([0], removed=ed) for c in starts2) or not starts2:
+                            bad.append('the cache-enabled phase (%s) can start without a successful %s' % (fn_short(name2), fn_short(name)))
+                # the boundary test is evaluated only after an uncached verification succeeded
+                removed = {(c.bb, c.target) for c in wo_calls}
+                reach2 = gb.reach([0], removed=removed)
+                bad2 += ['%s line %d' % (fn_short(name), ln) for (bb_, ln) in tests if bb_ in reach2]
+            if bad or not ntests:
                 R.violation('g', 'R2', 'verify_chain: cache phase only after the epoch-boundary test (or end of chain)',
-                            'verify_chain:cache-after-boundary', 'verify_with_cache_enabled (line %s) reachable without passing '
-                            'the epoch-boundary test; boundary tests found: %d' % ([c.line for c in bad], len(boundary_calls)), cf.loc())
+                            'verify_chain:cache-after-boundary', '%s; boundary tests found: %d' % (bad, ntests), cf.loc())
             else:
-                R.ok('g', 'R2', 'verify_chain: cache phase only after the epoch-boundary test (or end of chain)',
-                     'boundary test at line %s' % [c.line for c in boundary_calls], cf.loc())
-            # the boundary test is evaluated only after an uncached verification succeeded
-            removed = {(c.bb, c.target) for c in wo_calls}
-            reach2 = body.reach([0], removed=removed)
-            bad2 = [c for c in boundary_calls if c.bb in reach2]
+                R.ok('g', 'R2', 'verify_chain: cache phase only after the epoch-boundary test (or end of chain)', '%d boundary test(s)' % ntests, cf.loc())
             if bad2:
                 R.violation('g', 'R2', 'verify_chain: the epoch-boundary test follows an uncached verification',
-                            'verify_chain:boundary-after-uncached', 'boundary test at line %d reachable without '
-                            'verify_without_cache' % bad2[0].line, cf.loc())
+                            'verify_chain:boundary-after-uncached', 'boundary test reachable without verify_without_cache: %s' % bad2, cf.loc())
             else:
                 R.ok('g', 'R2', 'verify_chain: the epoch-boundary test follows an uncached verification', '', cf.loc())
             # the exit of loop 1 towards the cache phase is guarded by `epoch != start_epoch` (or None)
-            gs = [g for g in find_guards_family(lc) if g[1].op in ('Ne', 'Eq') and has(g[1].a_orig | g[1].b_orig, '*epoch*')]
+            gs = []
+            for name, (g, _c) in p1.items():
+                gs += [x for x in find_guards_family(g) if x[1].op in ('Ne', 'Eq') and has(x[1].a_orig | x[1].b_orig, '*epoch*')]
             if gs:
                 R.ok('g', 'R6', 'verify_chain: loop 1 exit tests the epoch against the start epoch',
-                     'guards at lines %s' % [g[1].line for g in gs], cf.loc())
+                     'guards at lines %s' % [x[1].line for x in gs], cf.loc())
             else:
                 R.violation('g', 'R6', 'verify_chain: loop 1 exit tests the epoch against the start epoch',
-                            'verify_chain:epoch-boundary-guard', 'no epoch (in)equality guard in verify_chain', cf.loc())
+                            'verify_chain:epoch-boundary-guard', 'no epoch (in)equality guard in the uncached phase', cf.loc())
 
 
 def served_is_verified(ctx):
